@@ -45,16 +45,7 @@ func runC17(e *Engine, r *Report) {
 	}
 	// ---- leader tick
 	storesType := func(fn *ssa.Function, cname string) []ssa.Instruction {
-		var out []ssa.Instruction
-		c := e.Const("raftpb", cname)
-		forEachInstr(fn, func(in ssa.Instruction) {
-			if st, ok := in.(*ssa.Store); ok {
-				if f, _, ok := fieldOfAddr(st.Addr); ok && f == msgType && constV(c)(st.Val) {
-					out = append(out, in)
-				}
-			}
-		})
-		return out
+		return e.msgTypeSites(fn, msgType, e.Const("raftpb", cname))
 	}
 	if lt := r.need(raftT + "leaderTick"); lt != nil {
 		tfh := r.need(raftT + "timeForHeartbeat")
